@@ -272,6 +272,11 @@ class Interp:
             d = dict(d); lem = d.pop("__lemma__", []); return d, lem
         # 1. establishment
         v0_, lem0 = split(view(lo))
+        for var in v0_:
+            # a contract that names a local the function does not define (renamed accumulator, restructured loop) does not bind:
+            # undecided, never a violation
+            defined = (var.split(".", 1)[1] in env[var.split(".", 1)[0]].attrs if "." in var and var.split(".", 1)[0] in env and hasattr(env[var.split(".", 1)[0]], "attrs") else var in env)
+            if not defined: raise Unsupported(f"loop #{ordinal} contract names `{var}`, which is not defined at loop entry")
         for var, want in v0_.items():
             if isinstance(want, Havoc):
                 for k_, f_ in enumerate(want.pred(self._acc_get(env, var), lo)): eng.oblige(f"loop{ordinal}/init/{var}/inv{k_}", f_, kind="inv")
